@@ -17,6 +17,14 @@ def check(run, model, tier):
                        'comes from the pop in next_rtc, which thread serves which subscription kind comes from dataflow through subscribe() '
                        'and start(). The verdict is about the add method each thread uses, so it covers every mix of pending events.')
     run.rule('ENDS.fabric-kind', 'lifo thread adds at the consumer end (front), fifo thread at the opposite end (back)')
+    run.rule('DEFAULT.kind', 'subscribe paths replace queue_type by the default only where the caller passed None: a lifo subscription stays a lifo subscription')
+    from sa.util import check_param_defaults as _cpd
+    n_k = 0
+    for cn_, mn_ in (('ActiveFabricSource', 'subscribe'), ('ActiveObject', 'subscribe'), ('ActiveObject', '_subscribe')):
+        f_ = model.cls(cn_).methods.get(mn_)
+        if f_ is not None:
+            n_k += _cpd(run, 'DEFAULT.kind', f_, params={'queue_type'}, why='a subscription made with queue_type=\'lifo\' is registered as a fifo one (or the other way round)')
+    run.floor('queue_type default sites on the subscribe paths', n_k, 1)
     w = fabric.wiring(model)
     if not w.consistent:
         run.inst('KIND.wiring', w.subscribe, 'each kind is registered in the registry its own delivery thread reads', False,
